@@ -344,6 +344,26 @@ func replay(workers []string, calls []callSpec, steps []step) (string, string, i
 	return finish(len(steps), "", "")
 }
 
+// flakyReader fails every `every`-th read.
+type flakyReader struct {
+	mu    sync.Mutex
+	n     int
+	every int
+}
+
+func (f *flakyReader) Read(p []byte) (int, error) {
+	f.mu.Lock()
+	defer f.mu.Unlock()
+	f.n++
+	if f.n%f.every == 0 {
+		return 0, fmt.Errorf("transient read error")
+	}
+	for i := range p {
+		p[i] = byte(f.n)
+	}
+	return len(p), nil
+}
+
 func stress(seed int64, calls int) []failure {
 	var fails []failure
 	// 0 workers = the nil pool: the same calls on the calling goroutine must give the same results
@@ -362,6 +382,24 @@ func stress(seed int64, calls int) []failure {
 			}()
 			for c := 0; c < calls; c++ {
 				k := (c*7 + int(seed)) % 9
+				if c%9 == 5 {
+					// a search whose candidates are drawn through the pool's LockedReader from a source that fails now and
+					// then (as sample.Paillier draws them): a failed draw is an unsuccessful candidate, nothing more
+					k = 1 + (c/9+int(seed))%3
+					lr := pool.NewLockedReader(&flakyReader{every: 3})
+					r := p.Search(k, func() interface{} {
+						var b [8]byte
+						if _, err := lr.Read(b[:]); err != nil {
+							return nil
+						}
+						return 1
+					})
+					if len(r) != k {
+						doneCh <- "wrong length"
+						return
+					}
+					continue
+				}
 				if c%3 == 2 {
 					k = (c/3 + int(seed)) % 5 // every count 0..4, whatever the seed
 					var n int32
